@@ -555,3 +555,112 @@ Proof.
   split; [vm_compute; reflexivity|]. split; [reflexivity|].
   intros u [<-|[]] p gp. unfold verify_header. cbn. discriminate.
 Qed.
+
+(* ---------------------------------------------------------------- uncles at any height (historic window included) *)
+
+Lemma in_wl_iff k n wl : in_wl k n wl = true <-> In (k, n) wl.
+Proof.
+  induction wl as [|[k' n'] t IH]; cbn; [split; [discriminate | contradiction]|].
+  rewrite orb_true_iff, andb_true_iff, IH. split.
+  - intros [[Hk Hn]|H]; [left | right; exact H].
+    destruct (bytes_eqb_spec k' k); [|discriminate]. subst. f_equal. lia.
+  - intros [E|H]; [left | right; exact H]. inversion E; subst. split; [apply bytes_eqb_refl | lia].
+Qed.
+
+Lemma dup_allowed_iff number bh unum :
+  dup_allowed number bh unum = true <-> number <= 15000 /\ In (bh, big_uint64 unum) dup_wl.
+Proof. unfold dup_allowed. rewrite andb_true_iff, in_wl_iff. split; intros [H1 H2]; split; try assumption; lia. Qed.
+
+Lemma dangling_allowed_iff number up uh unum :
+  dangling_allowed number up uh unum = true <->
+  number <= 15000 /\ (In (up, big_uint64 unum) dangling_parent_wl \/ In (uh, big_uint64 unum) dangling_hash_wl).
+Proof.
+  unfold dangling_allowed. rewrite andb_true_iff, orb_true_iff, !in_wl_iff.
+  split; intros [H1 H2]; split; try assumption; lia.
+Qed.
+
+Lemma uncle_loop_iff_any c chain now number bh bp :
+  forall us anc unc,
+    uncle_loop c chain now number bh bp us anc unc = Ok tt <-> uncles_spec c chain now number bh bp anc unc us.
+Proof.
+  induction us as [|u rest IH]; intros anc unc; cbn [uncle_loop uncles_spec].
+  - split; [intros _; exact I | reflexivity].
+  - destruct (mem_hash (h_hash u) unc && negb (dup_allowed number bh (h_number u))) eqn:Edup.
+    { split; [discriminate|]. intros [[H|H] _]; rewrite H in Edup; [discriminate|].
+      rewrite andb_false_r in Edup. discriminate. }
+    assert (Hdup : mem_hash (h_hash u) unc = false \/ dup_allowed number bh (h_number u) = true).
+    { destruct (mem_hash (h_hash u) unc); [right | left; reflexivity].
+      destruct (dup_allowed number bh (h_number u)); [reflexivity | discriminate]. }
+    destruct (lookup_hash (h_hash u) anc) as [a|] eqn:Ea.
+    { split; [discriminate | intros [_ [H _]]; discriminate]. }
+    destruct (lookup_hash (h_parent u) anc) as [p|] eqn:Ep.
+    2:{ destruct (dangling_allowed number (h_parent u) (h_hash u) (h_number u)) eqn:Eda.
+        - split; [|reflexivity]. intros _. split; [exact Hdup|]. split; [reflexivity|]. left. split; [left; reflexivity | reflexivity].
+        - split; [discriminate|]. intros [_ [_ [[_ H]|[p [H _]]]]]; discriminate. }
+    destruct (bytes_eqb_spec (h_parent u) bp) as [Eb|Eb].
+    { destruct (dangling_allowed number (h_parent u) (h_hash u) (h_number u)) eqn:Eda.
+      - split; [|reflexivity]. intros _. split; [exact Hdup|]. split; [reflexivity|]. left. split; [right; exact Eb | reflexivity].
+      - split; [discriminate|]. intros [_ [_ [[_ H]|[p' [_ [H _]]]]]]; [discriminate | contradiction]. }
+    destruct (verify_header c chain now u (Some p) (lookup_hash (h_parent p) anc) true true) as [[]| e |] eqn:Ev.
+    + rewrite IH. split.
+      * intros H. split; [exact Hdup|]. split; [reflexivity|]. right. exists p. repeat split; assumption.
+      * intros [_ [_ [[[H|H] _]|[p' [E [_ [_ H]]]]]]]; [discriminate | contradiction | exact H].
+    + split; [discriminate|]. intros [_ [_ [[[H|H] _]|[p' [E [_ [H _]]]]]]]; [discriminate | contradiction |].
+      inversion E; subst. rewrite Ev in H. discriminate.
+    + split; [discriminate|]. intros [_ [_ [[[H|H] _]|[p' [E [_ [H _]]]]]]]; [discriminate | contradiction |].
+      inversion E; subst. rewrite Ev in H. discriminate.
+Qed.
+
+(* VerifyUncles at any height *)
+Theorem uncles_iff_any_height c chain blocks now b :
+  let bh := bl_header b in
+  let '(number, anc, unc) := gather 7 blocks (h_parent bh) (u64 (big_uint64 (h_number bh) - 1)) [] [] in
+  (verify_uncles c chain blocks now b = Ok tt <->
+   Z.of_nat (length (bl_uncles b)) <= max_uncles_at c (h_number bh) /\
+   bl_version b <> 0 /\
+   uncles_spec c chain now number (h_hash bh) (h_parent bh) ((h_hash bh, bh) :: anc) (h_hash bh :: unc) (bl_uncles b)).
+Proof.
+  cbv zeta. unfold verify_uncles, max_uncles_at.
+  destruct header_constants as [_ [_ [_ [_ [-> ->]]]]].
+  destruct (gather 7 blocks (h_parent (bl_header b)) (u64 (big_uint64 (h_number (bl_header b)) - 1)) [] [])
+    as [[number anc] unc] eqn:Eg.
+  destruct (Z.of_nat (length (bl_uncles b)) >? 2) eqn:E2.
+  { split; [discriminate|]. intros [H _]. destruct (is_hf c 5 _); lia. }
+  destruct ((Z.of_nat (length (bl_uncles b)) >? 1) && is_hf c 5 (h_number (bl_header b))) eqn:E1.
+  { split; [discriminate|]. intros [H _]. destruct (is_hf c 5 _); [lia | rewrite andb_false_r in E1; discriminate]. }
+  destruct (bl_version b =? 0) eqn:Ev.
+  { split; [discriminate|]. intros [_ [H _]]. lia. }
+  rewrite (uncle_loop_iff_any c chain now number). split.
+  - intros H. split; [|split; [lia | exact H]]. destruct (is_hf c 5 _); lia.
+  - intros [_ [_ H]]. exact H.
+Qed.
+
+(* non-vacuity example used by Properties/C13.v *)
+Lemma header_example :
+  let p := {| h_hash := [x01]; h_parent := [x00]; h_number := 22799; h_time := 1530000000; h_diff := 4000000000000;
+              h_gas_limit := 4712388; h_gas_used := 0; h_extra_len := 5; h_seal := 0 |} in
+  let h d gl t := {| h_hash := [x02]; h_parent := [x01]; h_number := 22800; h_time := t; h_diff := d;
+                     h_gas_limit := gl; h_gas_used := 21000; h_extra_len := 32; h_seal := 0 |} in
+  verify_header mainnet_cfg [] 1530000300 (h 46039386 (4712388 + 4600) 1530000315) (Some p) None false true = Ok tt /\
+  verify_header mainnet_cfg [] 1530000300 (h 46039386 (4712388 + 4600) 1530000316) (Some p) None false true = Err EFuture /\
+  verify_header mainnet_cfg [] 1530000300 (h 46039387 (4712388 + 4600) 1530000315) (Some p) None false true = Err EDifficulty /\
+  verify_header mainnet_cfg [] 1530000300 (h 46039386 (4712388 + 4601) 1530000315) (Some p) None false true = Err EGasLimit /\
+  verify_header mainnet_cfg [] 1530000300 (h 46039386 (4712388 + 4600) 1530000000) (Some p) None false true = Err EZeroTime.
+Proof. vm_compute. repeat split; reflexivity. Qed.
+
+Lemma builtin_fork_resets time p gp :
+    ((h_number p + 1 = 3600 -> calc_difficulty mainnet_cfg time p gp = Ok 100001792) /\
+     (h_number p + 1 = 13026 -> calc_difficulty mainnet_cfg time p gp = Ok 30959185800) /\
+     (h_number p + 1 = 22800 -> calc_difficulty mainnet_cfg time p gp = Ok 46039386)) /\
+    ((h_number p + 1 = 1 -> calc_difficulty testnet_cfg time p gp = Ok 100001792) /\
+     (h_number p + 1 = 3 -> calc_difficulty testnet_cfg time p gp = Ok 30959185800) /\
+     (h_number p + 1 = 5 -> calc_difficulty testnet_cfg time p gp = Ok 46039386) /\
+     (h_number p + 1 = 650 -> calc_difficulty testnet_cfg time p gp = Ok 46039386)) /\
+    (h_number p + 1 = 8 -> calc_difficulty testnet2_cfg time p gp = Ok 46039386).
+Proof. split; [apply mainnet_resets | split; [apply testnet_resets | apply testnet2_reset]]. Qed.
+
+Lemma historic_exceptions_iff number block_hash uparent uhash unum :
+    (dup_allowed number block_hash unum = true <-> number <= 15000 /\ In (block_hash, big_uint64 unum) dup_wl) /\
+    (dangling_allowed number uparent uhash unum = true <->
+     number <= 15000 /\ (In (uparent, big_uint64 unum) dangling_parent_wl \/ In (uhash, big_uint64 unum) dangling_hash_wl)).
+Proof. split; [apply dup_allowed_iff | apply dangling_allowed_iff]. Qed.
